@@ -55,7 +55,7 @@ class ExtendNode(ConfigList):
         except KeyError:
             return ConfigList(self)
 
-        if hasattr(node, 'extend'):
+        if isinstance(node, list): # (not hasattr(node, 'extend'): a mapping answers with its child of that name)
             node.extend(self)
             into.ayns.remove_node(path)
             return node
